@@ -12,9 +12,28 @@ a lock forgets everything except "it is me" (only that fact is stable once the
 lock is gone), so what was learnt outside a critical section, or in another
 one, never justifies a store.  Names never matter: the record is the class
 attribute, the lock is whatever resolves to a `threading.Lock/RLock` created
-once at class or module level, the identity is whatever evaluates to
-`threading.get_ident()` (locals, resolved helpers, parameters all callers
-bind to it).
+once at class level (of any class of the program) or module level, the
+identity is whatever evaluates to `threading.get_ident()` (locals, resolved
+helpers, parameters all callers bind to it).
+
+What the interpretation follows besides direct tests:
+* locals: a local bound once from the record is a snapshot (current inside the
+  lock region that bound it, "a value the record held earlier" elsewhere); a
+  local bound more than once is followed flow-sensitively - through the
+  bindings that reach the use, and through two sets carried in the state: the
+  locals that hold what the record holds now (`owner = record`,
+  `record = owner = me`) and those that hold what it held earlier (after the
+  lock was released / a callee ran);
+* flags: `refused = owner != me` computed in one place and tested in another
+  stands for the comparison it was bound to (read as a statement about the past
+  when the lock has been released in between), provided its operands are not
+  rebound in between;
+* predicates: a resolved callee that returns a truth value (`if not
+  self._claim(me): raise`) narrows by the states that reach its `return`
+  statements with a true / a false value;
+* a call that stands in an arm of a conditional expression, after a
+  short-circuit operator, in a comprehension or in a lambda body may not run:
+  its effect is joined with "did not happen".
 
 R1  atomic claim: every store of the record happens while a lock is held that
     is created once at class or module level and never rebound (a `with`, or
@@ -25,7 +44,12 @@ R2  who may write what: the value stored is the current thread's identity
     (never None, a thread name, a process id ...), the store goes to the class
     that owns the record (not to `self`, `type(self)` or a `cls` that can be a
     subclass, which would create a shadow and leave the record unset), and
-    nothing deletes the record.
+    nothing deletes the record.  The receiver of the store is followed to what
+    it stands for: a local bound once (`holder = type(self)`), a lazy import,
+    a module-level alias, a parameter (`def claim(holder)`) through every
+    resolved call site - the first site that does not pass the owning class is
+    named in the message.  A tree in which nothing stores the record any more
+    breaks R2 (nothing is ever refused).
 R3  refusal on every path: no path through the constructor reaches a use of
     the file libraries, or the end of the constructor, unless the record has
     been established to be the current thread on that path (claimed under R1
@@ -40,7 +64,7 @@ from __future__ import annotations
 
 import ast
 
-from ..astutil import ancestors, call_name, calls_in, local_defs, norm, walk_no_nested
+from ..astutil import ancestors, assigned_names, call_name, calls_in, local_defs, norm, walk_no_nested
 from ..cfg import CFG
 from ..effects import fs_effect_of_call
 from ..loader import FunctionInfo, dotted_name, enclosing_function
@@ -54,6 +78,7 @@ IDENT_CALLS = {'threading.get_ident', 'threading.get_native_id', '_thread.get_id
 THREAD_CALLS = {'threading.current_thread', 'threading.currentThread'}
 TOP = frozenset('NMO')
 ME = frozenset('M')
+NONE = frozenset()
 NAMES = {'N': 'unset', 'M': 'this thread', 'O': 'another thread'}
 
 
@@ -65,16 +90,76 @@ def _stable(S):
     return S if S == ME else TOP
 
 
-def _qual(m, e: ast.AST) -> str:
-    """dotted name of a callee / attribute with the module's import aliases resolved"""
+def _stable2(S):
+    """like _stable for a set that may be empty (no path)"""
+    return S if (S == ME or not S) else TOP
+
+
+def _fn_imports(fi) -> dict:
+    """{local name: dotted target} of the import statements in the body of fi (a lazy import binds a local)"""
+    cache = getattr(fi.node, '_c20_imports', None)
+    if cache is not None:
+        return cache
+    out = {}
+    m = fi.module
+    parts = m.modname.split('.')
+    base0 = parts if m.relpath.endswith('__init__.py') else parts[:-1]
+    for s in walk_no_nested(fi.node):
+        if isinstance(s, ast.Import):
+            for a in s.names:
+                out[a.asname or a.name.split('.')[0]] = a.name if a.asname else a.name.split('.')[0]
+        elif isinstance(s, ast.ImportFrom):
+            if s.level:
+                base = base0[: len(base0) - (s.level - 1)]
+                mod = '.'.join(base + ([s.module] if s.module else []))
+            else:
+                mod = s.module or ''
+            for a in s.names:
+                out[a.asname or a.name] = f'{mod}.{a.name}'
+    try:
+        fi.node._c20_imports = out
+    except AttributeError:
+        pass
+    return out
+
+
+def _qual(m, e: ast.AST, fi=None) -> str:
+    """dotted name of a callee / attribute with the import aliases of the module (and of the function) resolved"""
     d = dotted_name(e)
     if not d:
         return ''
     head, _, rest = d.partition('.')
-    tgt = m.imports.get(head)
+    tgt = (_fn_imports(fi).get(head) if fi is not None else None) or m.imports.get(head)
     if tgt:
         return tgt + ('.' + rest if rest else '')
     return d
+
+
+def _stmt_of(x: ast.AST):
+    while x is not None and not isinstance(x, ast.stmt):
+        x = getattr(x, '_parent', None)
+    return x
+
+
+def _maybe_skipped(x: ast.AST, root: ast.AST) -> bool:
+    """evaluating `root` does not necessarily evaluate its sub-expression x"""
+    child = x
+    for a in ancestors(x):
+        if isinstance(a, ast.IfExp) and child is not a.test:
+            return True
+        if isinstance(a, ast.BoolOp) and child is not a.values[0]:
+            return True
+        if isinstance(a, ast.Lambda):
+            return True
+        if isinstance(a, (ast.ListComp, ast.SetComp, ast.DictComp, ast.GeneratorExp)) \
+                and child is not a.generators[0]:
+            return True
+        if isinstance(a, ast.comprehension) and child is not a.iter:
+            return True
+        if a is root or isinstance(a, ast.stmt):
+            break
+        child = a
+    return False
 
 
 class Analysis:
@@ -96,6 +181,9 @@ class Analysis:
         self._touch = {}
         self._param = {}
         self._memo = {}
+        self._env = None          # (function key, locals equal to the record now, locals equal to an earlier value)
+        self._truth = {}          # analysis key -> (record when the function returns a true value, ... a false value)
+        self._call_ctx = {}       # id(call) -> (callee, lock held, record before the call) at its last evaluation
         self._active = set()
         self._collected = set()
         self._cfg = {}
@@ -129,23 +217,99 @@ class Analysis:
     def class_ref(self, fi, e) -> str | None:
         """how expression e denotes (a class carrying) the record: 'class' the owning class by name, 'sub' a subclass
         by name, 'cls' / 'self' / 'type' through the receiver, None for anything else"""
+        return self.class_ref_deep(fi, e)[0]
+
+    def class_ref_deep(self, fi, e, depth=0):
+        """(kind as in class_ref, how the expression got its value - text for the message, function in which the
+        final expression stands).  A name is followed to what it stands for: a local bound once (`holder = type(self)`,
+        a lazy `from .store import TrajectoryStore`), a parameter through every resolved call site (the first site that
+        does not pass the owning class decides), a module-level alias."""
+        if depth > 5:
+            return None, '', fi
         if isinstance(e, ast.Name):
             if e.id == 'self' and fi.cls is not None and fi.params[:1] == ['self']:
-                return 'self' if fi.cls.is_subclass_of(OWNER) else None
+                return ('self' if fi.cls.is_subclass_of(OWNER) else None), '', fi
             if e.id == 'cls' and fi.cls is not None and fi.params[:1] == ['cls']:
-                return 'cls' if fi.cls.is_subclass_of(OWNER) else None
-        if isinstance(e, ast.Attribute) and e.attr == '__class__' and self.class_ref(fi, e.value) == 'self':
-            return 'type'
+                return ('cls' if fi.cls.is_subclass_of(OWNER) else None), '', fi
+            a = fi.node.args
+            ds = local_defs(fi.node, e.id)
+            if e.id == '__class__' and fi.cls is not None and not ds:
+                # the implicit cell of a method: the class the method is defined in, whatever the receiver is
+                return ('class' if fi.cls is self.cls else 'sub' if fi.cls.is_subclass_of(OWNER) else None), '', fi
+            if e.id in [x.arg for x in a.posonlyargs + a.args + a.kwonlyargs]:
+                if ds:
+                    return None, '', fi
+                sites = self.param_args(fi, e.id)
+                if not sites:
+                    return None, '', fi
+                for where, c, arg, caller in sites:
+                    k, how, org = (None, '', caller) if arg is None else self.class_ref_deep(where, arg, depth + 1)
+                    if k != 'class':
+                        txt = norm(arg) if arg is not None else '<nothing>'
+                        return k, (f', which the call at {caller.module.relpath}:{c.lineno} ({caller.qualname}) binds to '
+                                   f'`{txt}`{how}'), org
+                return 'class', '', fi
+            if ds:
+                if len(ds) == 1 and isinstance(ds[0], (ast.Assign, ast.AnnAssign)) and ds[0].value is not None \
+                        and (isinstance(ds[0], ast.AnnAssign) or (len(ds[0].targets) == 1 and isinstance(ds[0].targets[0], ast.Name))):
+                    k, how, org = self.class_ref_deep(fi, ds[0].value, depth + 1)
+                    return k, f' (= `{norm(ds[0].value)}`{how})', org
+                return None, '', fi
+            tgt = _fn_imports(fi).get(e.id)
+            if tgt:
+                c = self.prog.resolve_dotted(tgt)
+                if c is self.cls:
+                    return 'class', '', fi
+                if hasattr(c, 'is_subclass_of') and c.is_subclass_of(OWNER):
+                    return 'sub', '', fi
+                return None, '', fi
+        if isinstance(e, ast.Attribute) and e.attr == '__class__':
+            k, how, org = self.class_ref_deep(fi, e.value, depth + 1)
+            if k == 'self':
+                return 'type', how, org
         if isinstance(e, ast.Call) and isinstance(e.func, ast.Name) and e.func.id == 'type' and len(e.args) == 1 \
-                and self.class_ref(fi, e.args[0]) == 'self':
-            return 'type'
+                and not e.keywords:
+            k, how, org = self.class_ref_deep(fi, e.args[0], depth + 1)
+            if k == 'self':
+                return 'type', how, org
         if isinstance(e, (ast.Name, ast.Attribute)):
             c = self.prog.resolve_class_expr(fi.module, e)
             if c is self.cls:
-                return 'class'
+                return 'class', '', fi
             if c is not None and c.is_subclass_of(OWNER):
-                return 'sub'
-        return None
+                return 'sub', '', fi
+            if isinstance(e, ast.Name) and c is None:
+                r = self.prog.resolve_name(fi.module, e.id)
+                if isinstance(r, tuple) and r[0] == 'const' and isinstance(r[1].constants[r[2]], (ast.Name, ast.Attribute)):
+                    # a module-level alias `_Holder = TrajectoryStore` (bound once at import time)
+                    v = r[1].constants[r[2]]
+                    holder = FunctionInfo('<module>', ast.parse('def f(): pass').body[0], r[1], None)
+                    k, how, org = self.class_ref_deep(holder, v, depth + 1)
+                    if k is not None:
+                        return k, f' (= `{norm(v)}`{how})', org
+        return None, '', fi
+
+    def param_args(self, fi, name):
+        """[(function the expression stands in, call, argument expression | None, caller)]: what every resolved call
+        site of fi passes for the parameter (its default, which stands in fi, when the site leaves it out)"""
+        params = fi.params
+        if name not in params:
+            return []
+        idx = params.index(name)
+        implicit = 1 if fi.cls is not None and not any('staticmethod' in d for d in fi.decorators()) else 0
+        out = []
+        for caller, c in callers_of(self.prog, fi):
+            off = implicit if isinstance(c.func, ast.Attribute) or (isinstance(c.func, ast.Name) and fi.name == '__init__') else 0
+            pos = idx - off
+            if 0 <= pos < len(c.args) and not any(isinstance(a, ast.Starred) for a in c.args[:pos + 1]):
+                arg = c.args[pos]
+            else:
+                arg = next((kw.value for kw in c.keywords if kw.arg == name), None)
+            where = caller
+            if arg is None:
+                arg, where = self._default_of(fi, name), fi
+            out.append((where, c, arg, caller))
+        return out
 
     def record_read(self, fi, e) -> bool:
         if isinstance(e, ast.Attribute) and e.attr == RECORD and isinstance(e.ctx, ast.Load):
@@ -159,8 +323,28 @@ class Analysis:
     def _is_lock_ctor(self, m, v) -> bool:
         return isinstance(v, ast.Call) and _qual(m, v.func) in LOCK_CTORS
 
-    def _rebound(self, name: str, module_level_in=None) -> str | None:
-        """a place where the lock `name` is bound again at run time"""
+    def _related_class(self, fi, base, owner):
+        """does `base`, standing in fi, denote the class `owner`, a class below or above it, or an instance of one?
+        True / False / None (cannot tell)"""
+        if isinstance(base, ast.Call) and isinstance(base.func, ast.Name) and base.func.id == 'type' and len(base.args) == 1:
+            base = base.args[0]
+        if isinstance(base, ast.Attribute) and base.attr == '__class__':
+            base = base.value
+        if isinstance(base, ast.Name) and base.id in ('self', 'cls'):
+            if fi is None or fi.cls is None:
+                return None
+            c = fi.cls
+        elif isinstance(base, (ast.Name, ast.Attribute)):
+            c = self.prog.resolve_class_expr(fi.module, base) if fi is not None else None
+            if c is None:
+                return None
+        else:
+            return None
+        return any(x is owner for x in c.mro()) or any(x is c for x in owner.mro())
+
+    def _rebound(self, name: str, module_level_in=None, owner=None) -> str | None:
+        """a place where the lock `name` (a global of module_level_in, or a class attribute of `owner`) is bound again
+        at run time"""
         for mm in self.prog.src_modules():
             for n in ast.walk(mm.tree):
                 base = None
@@ -177,12 +361,21 @@ class Analysis:
                     fn = enclosing_function(n)
                     fi = self.fn_of_node.get(id(fn)) if fn is not None else None
                     ctxfi = fi if fi is not None else FunctionInfo('<module>', ast.parse('def f(): pass').body[0], mm, None)
-                    ref = self.class_ref(ctxfi, base)
-                    if ref is None and not (isinstance(base, ast.Name) and base.id in ('self', 'cls') and fi is not None
-                                            and fi.cls is None):
-                        other = self.prog.resolve_class_expr(mm, base) if isinstance(base, (ast.Name, ast.Attribute)) else None
-                        if other is not None or (isinstance(base, ast.Name) and base.id in ('self', 'cls')):
-                            continue
+                    rel = self._related_class(ctxfi, base, owner if owner is not None else self.cls)
+                    if rel is False:
+                        continue   # (None: cannot tell whose attribute it is - counts as a rebinding)
+                else:
+                    # a module global: `mod.NAME = ...` rebinds it when `mod` is that module; the same attribute name on
+                    # a class, another module or an instance is somebody else's; anything unresolved counts
+                    q = _qual(mm, base)
+                    r = self.prog.resolve_dotted(q) if q else None
+                    if r is not None and r is not module_level_in:
+                        continue
+                    fn = enclosing_function(n)
+                    fi = self.fn_of_node.get(id(fn)) if fn is not None else None
+                    if r is None and isinstance(base, ast.Name) and base.id in ('self', 'cls') and fi is not None \
+                            and fi.cls is not None:
+                        continue
                 return f'{mm.relpath}:{n.lineno} rebinds {norm(base)}.{name}'
             if module_level_in is not None and mm is module_level_in:
                 for fi in mm.functions.values():
@@ -233,19 +426,31 @@ class Analysis:
                 return None, f'module global {r[2]} = {norm(v)[:40]} is not a lock created at import time'
             return None, f'`{e.id}` is not a lock created once at class or module level'
         if isinstance(e, ast.Attribute):
-            ref = self.class_ref(fi, e.value)
+            ref, _how, org = self.class_ref_deep(fi, e.value)
             owner = None
-            if ref in ('class', 'sub'):
-                owner = self.prog.resolve_class_expr(m, e.value)
-            elif ref in ('cls', 'self', 'type'):
-                owner = fi.cls
+            if ref in ('cls', 'self', 'type'):
+                owner = org.cls
+            elif ref in ('class',):
+                owner = self.cls
+            else:
+                # any class of the program can carry the lock (a guard class in a support module): by name, or
+                # through self / cls / type(self) in one of its own methods
+                b = e.value
+                if isinstance(b, ast.Call) and isinstance(b.func, ast.Name) and b.func.id == 'type' and len(b.args) == 1:
+                    b = b.args[0]
+                if isinstance(b, ast.Attribute) and b.attr == '__class__':
+                    b = b.value
+                if isinstance(b, ast.Name) and b.id in ('self', 'cls') and fi.cls is not None and fi.params[:1] == [b.id]:
+                    owner = fi.cls
+                elif isinstance(b, (ast.Name, ast.Attribute)):
+                    owner = self.prog.resolve_class_expr(m, b)
             if owner is not None:
                 for c in owner.mro():
                     ca = c.class_assignments()
                     if e.attr in ca:
                         v = ca[e.attr]
                         if v is not None and self._is_lock_ctor(c.module, v):
-                            why = self._rebound(e.attr)
+                            why = self._rebound(e.attr, owner=c)
                             if why:
                                 return None, f'the lock {c.name}.{e.attr} is not created once: {why}'
                             return ('cls', c.name, e.attr), f'class attribute {c.name}.{e.attr} = {norm(v)}'
@@ -316,33 +521,41 @@ class Analysis:
         if k in self._param:
             return self._param[k]
         self._param[k] = 'U'
-        params = fi.params
-        if name not in params:
-            return 'U'
-        idx = params.index(name)
-        implicit = 1 if fi.cls is not None and not any('staticmethod' in d for d in fi.decorators()) else 0
-        sites = callers_of(self.prog, fi)
-        syms = set()
-        for caller, c in sites:
-            off = implicit if isinstance(c.func, ast.Attribute) or (isinstance(c.func, ast.Name) and fi.name == '__init__') else 0
-            arg = None
-            pos = idx - off
-            if 0 <= pos < len(c.args) and not any(isinstance(a, ast.Starred) for a in c.args[:pos + 1]):
-                arg = c.args[pos]
-            else:
-                arg = next((kw.value for kw in c.keywords if kw.arg == name), None)
-            if arg is None:
-                d = self._default_of(fi, name)
-                syms.add(self._closed_sym(fi, d) if d is not None else 'U')
-            else:
-                syms.add(self._closed_sym(caller, arg))
+        sites = self.param_args(fi, name)
+        syms = {self._closed_sym(where, arg, _stmt_of(c) if where is caller else None) if arg is not None else 'U'
+                for where, c, arg, caller in sites}
         r = 'M' if sites and syms == {'M'} else 'U'
         self._param[k] = r
         return r
 
-    def _closed_sym(self, fi, e):
-        k, d = self.sym(fi, e)
+    def _closed_sym(self, fi, e, at=None):
+        k, d = self.sym(fi, e, at=at)
         return self.param_sym(fi, d) if k == 'P' else k
+
+    def reaching(self, fi, name, ds, at):
+        """the definitions of the local `name` (ds, more than one) that can reach statement `at`"""
+        ck = (fi.file, fi.qualname)
+        memo = self._cfg.setdefault(ck, {}).setdefault('reach', {})
+        if name not in memo:
+            g = self._cfg[ck].get('g')
+            if g is None:
+                g = self._cfg[ck]['g'] = CFG(fi.node)
+            ids = {id(d): d for d in ds}
+
+            def tr(node, st):
+                if node.stmt is not None and id(node.stmt) in ids and node.kind in ('stmt', 'test', 'iter', 'with', 'match'):
+                    return frozenset([id(node.stmt)])
+                return st
+            ins, _ = g.forward(frozenset(['entry']), tr, lambda a, b: a | b)
+            memo[name] = (g, ins, ids)
+        g, ins, ids = memo[name]
+        if set(ids) != {id(d) for d in ds}:
+            return ds
+        reach = set()
+        for n in g.nodes_of(at):
+            reach |= ins.get(n, frozenset())
+        out = [ids[i] for i in reach if i != 'entry']
+        return sorted(out, key=lambda d: (d.lineno, d.col_offset)) if out else ds
 
     @staticmethod
     def _default_of(fi, name):
@@ -356,21 +569,23 @@ class Analysis:
                 return d
         return None
 
-    def sym(self, fi, e, depth=0):
-        """('M' | 'N' | 'R' | 'U', binding statement of a snapshot or None).  R = the record's value as read by e."""
+    def sym(self, fi, e, depth=0, at=None):
+        """('M' | 'N' | 'R' | 'U', binding statement of a snapshot or None).  R = the record's value as read by e.
+        `at`: the statement at which e is evaluated (a local bound more than once is followed through the bindings
+        that reach it)."""
         if e is None or depth > 6:
             return 'U', None
         if isinstance(e, ast.NamedExpr):
-            return self.sym(fi, e.value, depth + 1)
+            return self.sym(fi, e.value, depth + 1, at)
         if isinstance(e, ast.Constant):
             return ('N', None) if e.value is None else ('C', None)
         if self.record_read(fi, e):
             return 'R', None
         if isinstance(e, ast.Attribute) and e.attr in ('ident', 'native_id') and isinstance(e.value, ast.Call) \
-                and _qual(fi.module, e.value.func) in THREAD_CALLS:
+                and _qual(fi.module, e.value.func, fi) in THREAD_CALLS:
             return 'M', None
         if isinstance(e, ast.Call):
-            if _qual(fi.module, e.func) in IDENT_CALLS:
+            if _qual(fi.module, e.func, fi) in IDENT_CALLS:
                 return 'M', None
             callee = resolve_call(self.prog, fi, e)
             if callee is not None and callee.name != '__init__':
@@ -385,6 +600,8 @@ class Analysis:
                     return 'P', e.id   # a parameter: resolved through the call sites only when it matters
                 return 'U', None
             ds = local_defs(fi.node, e.id)
+            if at is not None and len(ds) > 1:
+                ds = self.reaching(fi, e.id, ds, at)
             vals = []
             for d in ds:
                 v = None
@@ -398,7 +615,7 @@ class Analysis:
                             v = x.value
                 if v is None:
                     return 'U', None
-                vals.append((self.sym(fi, v, depth + 1)[0], d))
+                vals.append((self.sym(fi, v, depth + 1, d)[0], d))
             if not vals:
                 # a capture pattern of a `match` on the record: `case owner if owner != me`
                 caps = [x for x in walk_no_nested(fi.node) if isinstance(x, ast.MatchAs) and x.name == e.id]
@@ -437,7 +654,7 @@ class Analysis:
         for x in ast.walk(e):
             if isinstance(x, ast.Attribute) and x.attr in ('name', 'getName', 'daemon'):
                 return 'a thread name (names are not unique)'
-            if isinstance(x, ast.Call) and _qual(fi.module, x.func) in ('os.getpid', 'os.getppid'):
+            if isinstance(x, ast.Call) and _qual(fi.module, x.func, fi) in ('os.getpid', 'os.getppid'):
                 return 'a process id (shared by all threads)'
         if isinstance(e, ast.Name):
             ds = local_defs(fi.node, e.id)
@@ -446,41 +663,90 @@ class Analysis:
         return None
 
     # ---- narrowing --------------------------------------------------------------
-    def _current(self, fi, e, at_stmt):
+    def _current(self, fi, e, at_stmt, stale=False):
         """kind of e for a test evaluated at at_stmt: 'R' only when it is the record as it is *now* (read in place,
-        or a snapshot bound in the same lock region)"""
-        k, d = self.sym(fi, e)
+        or a snapshot bound in the same lock region); `stale`: the test was evaluated earlier, in another region"""
+        k, d = self.sym(fi, e, at=at_stmt)
         if k == 'P':
             return ('P', d)
+        if k == 'U' and isinstance(e, ast.Name) and self._env is not None and self._env[0] == (fi.file, fi.qualname):
+            # a local bound more than once: what the flow analysis knows about it at this point
+            if e.id in self._env[1]:
+                k = 'R'
+            elif e.id in self._env[2]:
+                return 'stale'
+        if k == 'R' and stale:
+            return 'stale'
         if k == 'R' and d is not None:
             sa, sb = self.section_of(fi, d), self.section_of(fi, at_stmt)
             if (sa[0] if sa else None) is not (sb[0] if sb else None):
                 return 'stale'
         return k
 
-    def refine(self, fi, e, truth, S, at):
+    def _flag_def(self, fi, e: ast.Name, at):
+        """(binding statement, expression) when the local e is a flag: bound (as far as `at` is concerned) by one plain
+        assignment of a comparison / boolean combination / call whose operands still mean the same at `at`"""
+        a = fi.node.args
+        if e.id in [x.arg for x in a.posonlyargs + a.args + a.kwonlyargs]:
+            return None
+        ds = local_defs(fi.node, e.id)
+        if len(ds) > 1 and at is not None:
+            ds = self.reaching(fi, e.id, ds, at)
+        if len(ds) != 1:
+            return None
+        d = ds[0]
+        if isinstance(d, ast.Assign) and len(d.targets) == 1 and isinstance(d.targets[0], ast.Name):
+            v = d.value
+        elif isinstance(d, ast.AnnAssign) and isinstance(d.target, ast.Name) and d.value is not None:
+            v = d.value
+        else:
+            return None
+        if not isinstance(v, (ast.Compare, ast.BoolOp, ast.Call)) \
+                and not (isinstance(v, ast.UnaryOp) and isinstance(v.op, ast.Not)):
+            return None
+        for x in ast.walk(v):
+            if isinstance(x, ast.Name) and isinstance(x.ctx, ast.Load):
+                xs = local_defs(fi.node, x.id)
+                if len(xs) > 1:
+                    r1 = {id(y) for y in self.reaching(fi, x.id, xs, d)}
+                    r2 = {id(y) for y in self.reaching(fi, x.id, xs, at)} if at is not None else None
+                    # the same bindings reach both places: without a loop around the flag's assignment no binding of
+                    # the operand lies between the two
+                    if r1 != r2 or any(isinstance(p, (ast.For, ast.AsyncFor, ast.While)) for p in ancestors(d)):
+                        return None
+        return d, v
+
+    def refine(self, fi, e, truth, S, at, stale=False):
         if isinstance(e, ast.UnaryOp) and isinstance(e.op, ast.Not):
-            return self.refine(fi, e.operand, not truth, S, at)
+            return self.refine(fi, e.operand, not truth, S, at, stale)
         if isinstance(e, ast.NamedExpr):
-            return self.refine(fi, e.value, truth, S, at)
+            return self.refine(fi, e.value, truth, S, at, stale)
+        if isinstance(e, ast.Call) and id(e) in self._call_ctx and not self.record_read(fi, e):
+            # the truth of what a resolved callee returned: the record as it is on the callee's paths that return so
+            callee, held, S_in = self._call_ctx[id(e)]
+            t = self._truth.get((callee.file, callee.qualname, held, S_in))
+            if t is not None:
+                X = t[0] if truth else t[1]
+                return S & (X if held and not stale else _stable2(X))
+            return S
         if isinstance(e, ast.BoolOp):
             conj = isinstance(e.op, ast.And) == truth
             if conj:  # all operands have truth value `truth`
                 for v in e.values:
-                    S = self.refine(fi, v, truth, S, at)
+                    S = self.refine(fi, v, truth, S, at, stale)
                 return S
             out = frozenset()
             cur = S
             for v in e.values:  # first operand that decides; the earlier ones had the other value
-                out |= self.refine(fi, v, truth, cur, at)
-                cur = self.refine(fi, v, not truth, cur, at)
+                out |= self.refine(fi, v, truth, cur, at, stale)
+                cur = self.refine(fi, v, not truth, cur, at, stale)
             return out
         if isinstance(e, ast.Compare) and len(e.ops) == 1:
             op = e.ops[0]
             a, b = e.left, e.comparators[0]
-            ka, kb = self._current(fi, a, at), self._current(fi, b, at)
+            ka, kb = self._current(fi, a, at, stale), self._current(fi, b, at, stale)
             if isinstance(op, (ast.In, ast.NotIn)) and ka == 'R' and isinstance(b, (ast.Tuple, ast.List, ast.Set)):
-                ks = {self._current(fi, x, at) for x in b.elts}
+                ks = {self._current(fi, x, at, stale) for x in b.elts}
                 ks = {self.param_sym(fi, x[1]) if isinstance(x, tuple) else x for x in ks}
                 if ks <= {'N', 'M'}:
                     sel = frozenset(ks)
@@ -508,8 +774,18 @@ class Analysis:
                 eq = isinstance(op, ast.Eq) == truth
                 return S & ME if eq else S - ME
             return S
-        if self._current(fi, e, at) == 'R':  # truthiness: thread identities are non-zero integers
+        k = self._current(fi, e, at, stale)
+        if k == 'R':  # truthiness: thread identities are non-zero integers
             return S - frozenset('N') if truth else S & frozenset('N')
+        if isinstance(e, ast.Name) and k in ('U', 'C'):
+            # a flag computed earlier (`refused = owner != me` under the lock, tested after it): the test it stands for,
+            # read as a statement about the past when the lock has been released since
+            fd = self._flag_def(fi, e, at)
+            if fd is not None:
+                d, v = fd
+                sa, sb = self.section_of(fi, d), (self.section_of(fi, at) if at is not None else None)
+                moved = (sa[0] if sa else None) is not (sb[0] if sb else None)
+                return self.refine(fi, v, truth, S, at, stale or moved)
         return S
 
     def value_effect(self, fi, v, S, at):
@@ -573,7 +849,8 @@ class Analysis:
         return self._touch[k]
 
     def record_targets(self, fi, stmt):
-        """[(reference kind, value expr or None for delete, text)] for every write of the record by a simple stmt"""
+        """[(reference kind, value expr or None for delete, text, receiver expr)] for every write of the record by a
+        simple stmt"""
         out = []
         if isinstance(stmt, ast.Assign):
             for t in stmt.targets:
@@ -583,25 +860,25 @@ class Analysis:
                         v = stmt.value
                         if isinstance(t, (ast.Tuple, ast.List)):
                             v = v.elts[i] if isinstance(v, (ast.Tuple, ast.List)) and len(v.elts) == len(elts) else ast.Name(id='<unpacked>')
-                        out.append((self.class_ref(fi, x.value), v, norm(x)))
+                        out.append((self.class_ref(fi, x.value), v, norm(x), x.value))
         elif isinstance(stmt, ast.AnnAssign) and stmt.value is not None:
             x = stmt.target
             if isinstance(x, ast.Attribute) and x.attr == RECORD:
-                out.append((self.class_ref(fi, x.value), stmt.value, norm(x)))
+                out.append((self.class_ref(fi, x.value), stmt.value, norm(x), x.value))
         elif isinstance(stmt, ast.AugAssign):
             x = stmt.target
             if isinstance(x, ast.Attribute) and x.attr == RECORD:
-                out.append((self.class_ref(fi, x.value), ast.Name(id='<augmented>'), norm(x)))
+                out.append((self.class_ref(fi, x.value), ast.Name(id='<augmented>'), norm(x), x.value))
         elif isinstance(stmt, ast.Delete):
             for x in stmt.targets:
                 if isinstance(x, ast.Attribute) and x.attr == RECORD:
-                    out.append((self.class_ref(fi, x.value), None, norm(x)))
+                    out.append((self.class_ref(fi, x.value), None, norm(x), x.value))
         if not isinstance(stmt, (ast.If, ast.While, ast.For, ast.With, ast.Try, ast.Match)):
             for c in calls_in(stmt):
                 if isinstance(c.func, ast.Name) and c.func.id in ('setattr', 'delattr') and len(c.args) >= 2 \
                         and isinstance(c.args[1], ast.Constant) and c.args[1].value == RECORD:
                     v = c.args[2] if c.func.id == 'setattr' and len(c.args) > 2 else None
-                    out.append((self.class_ref(fi, c.args[0]), v, norm(c)[:60]))
+                    out.append((self.class_ref(fi, c.args[0]), v, norm(c)[:60], c.args[0]))
         return out
 
     # ---- the abstract interpretation ------------------------------------------------------
@@ -635,11 +912,15 @@ class Analysis:
             return ('w', id(sec[0])) if sec else base
 
         def sync(node, st):
-            tag, S = st
+            tag, S, EQ, PAST = st
             w = want(node)
             if tag != w:
-                return (w, _stable(S))
+                # what a local was seen to share with the record is, from here on, something the record held earlier
+                return (w, _stable(S), NONE, PAST | EQ)
             return st
+
+        def use_env(EQ, PAST):
+            self._env = (ck, EQ, PAST)
 
         def heads(node):
             s = node.stmt
@@ -658,9 +939,9 @@ class Analysis:
             return []
 
         def transfer(node, st, emit=False):
-            tag, S = sync(node, st)
+            tag, S, EQ, PAST = sync(node, st)
             if node.stmt is None or node.kind in ('finally', 'dispatch', 'join', 'except'):
-                return (tag, S)
+                return (tag, S, EQ, PAST)
             held = tag is not None
             for h in heads(node):
                 if h is None:
@@ -668,25 +949,88 @@ class Analysis:
                 for c in calls_in(h):
                     callee = resolve_call(self.prog, fi, c)
                     if callee is not None and self.relevant(callee) and not self.record_read(fi, c):
-                        S2 = self.analyse(callee, held, S if held else _stable(S), emit)
-                        S = S2 if held else _stable(S2)
+                        S_in = S if held else _stable(S)
+                        S2 = self.analyse(callee, held, S_in, emit)
+                        S2 = S2 if held else _stable(S2)
+                        self._call_ctx[id(c)] = (callee, held, S_in)
+                        # a call in an arm of a conditional expression, after a short-circuit operator, in a
+                        # comprehension or in a lambda body may not run at all: what it establishes holds on one
+                        # of two paths only
+                        S = (S | S2) if _maybe_skipped(c, h) else S2
+                        EQ, PAST = NONE, PAST | EQ   # the callee may have written the record
+            # locals bound in the head of a compound statement (loop target, `with .. as`, walrus)
+            for h in heads(node):
+                if h is None or node.kind == 'stmt':
+                    continue
+                for x in walk_no_nested(h):
+                    if isinstance(x, ast.NamedExpr):
+                        EQ, PAST = EQ - {x.target.id}, PAST - {x.target.id}
+                        if self.record_read(fi, x.value):
+                            EQ = EQ | {x.target.id}
+            if node.kind == 'iter':
+                b = set(assigned_names(node.stmt.target))
+                EQ, PAST = EQ - b, PAST - b
+            elif node.kind == 'with':
+                for it in node.stmt.items:
+                    if it.optional_vars is not None:
+                        b = set(assigned_names(it.optional_vars))
+                        EQ, PAST = EQ - b, PAST - b
             if node.kind == 'stmt':
-                for ref, v, text in self.record_targets(fi, node.stmt):
+                stmt = node.stmt
+                stored = False
+                use_env(EQ, PAST)
+                for ref, v, text, recv in self.record_targets(fi, stmt):
                     if v is None:
                         prob, S2 = 'delete', TOP
                     else:
-                        prob, S2 = self.value_effect(fi, v, S, node.stmt)
+                        use_env(EQ, PAST)
+                        prob, S2 = self.value_effect(fi, v, S, stmt)
                     if emit:
-                        self._emit_store(fi, node, ref, v, text, held, tag, S, prob)
+                        self._emit_store(fi, node, ref, v, text, held, tag, S, prob, recv)
                     S = S2
-                if emit and isinstance(node.stmt, ast.Raise) and S and S <= frozenset('O'):
+                    stored = True
+                if emit and isinstance(stmt, ast.Raise) and S and S <= frozenset('O'):
                     self.refusals.append((fi, node.line))
-            return (tag, S)
+                # which locals hold the value the record has now (EQ) / held at some earlier time (PAST)
+                bound, simple, val = set(), set(), None
+                if isinstance(stmt, ast.Assign):
+                    for t in stmt.targets:
+                        bound |= set(assigned_names(t))
+                        if isinstance(t, ast.Name):
+                            simple.add(t.id)
+                    val = stmt.value
+                elif isinstance(stmt, (ast.AnnAssign, ast.AugAssign)):
+                    bound |= set(assigned_names(stmt.target))
+                    if isinstance(stmt, ast.AnnAssign) and isinstance(stmt.target, ast.Name) and stmt.value is not None:
+                        simple.add(stmt.target.id)
+                        val = stmt.value
+                elif isinstance(stmt, ast.Delete):
+                    bound |= {t.id for t in stmt.targets if isinstance(t, ast.Name)}
+                for x in walk_no_nested(stmt):
+                    if isinstance(x, ast.NamedExpr):
+                        bound.add(x.target.id)
+                vname = val.id if isinstance(val, ast.Name) else None
+                if stored:
+                    plain = isinstance(stmt, (ast.Assign, ast.AnnAssign)) and val is not None and all(
+                        isinstance(t, (ast.Name, ast.Attribute)) for t in (stmt.targets if isinstance(stmt, ast.Assign) else [stmt.target]))
+                    PAST = (PAST | EQ) - bound
+                    EQ = NONE
+                    if plain:   # `record = x = v` / `record = v`: x and v are what the record is now
+                        EQ = frozenset(simple | ({vname} if vname and vname not in bound else set()))
+                        PAST = PAST - EQ
+                elif val is not None and simple and (self.record_read(fi, val) or vname in EQ):
+                    EQ, PAST = (EQ - bound) | simple, PAST - bound
+                elif val is not None and simple and vname in PAST:
+                    EQ, PAST = EQ - bound, (PAST - bound) | simple
+                elif bound:
+                    EQ, PAST = EQ - bound, PAST - bound
+            return (tag, S, frozenset(EQ), frozenset(PAST))
 
         def branch(node, lab, st):
-            tag, S = st
+            tag, S, EQ, PAST = st
+            use_env(EQ, PAST)
             if node.kind == 'test':
-                return (tag, self.refine(fi, node.stmt.test, lab == 't', S, node.stmt))
+                return (tag, self.refine(fi, node.stmt.test, lab == 't', S, node.stmt), EQ, PAST)
             if node.kind == 'case':
                 mc = node.stmt
                 match = getattr(mc, '_parent', None)
@@ -705,15 +1049,42 @@ class Analysis:
                     S2 = self.refine(fi, mc.guard, True, S2, match)
                 elif lab == 'f' and mc.guard is not None and isinstance(pat, ast.MatchAs) and pat.pattern is None:
                     S2 = self.refine(fi, mc.guard, False, S2, match)
-                return (tag, S2)
+                return (tag, S2, EQ, PAST)
             return st
 
         def join(a, b):
+            EQ = a[2] & b[2]
+            PAST = ((a[3] | a[2]) & (b[3] | b[2])) - EQ
             if a[0] == b[0]:
-                return (a[0], a[1] | b[1])
-            return (('x',), _stable(a[1]) | _stable(b[1]))
+                return (a[0], a[1] | b[1], EQ, PAST)
+            return (('x',), _stable(a[1]) | _stable(b[1]), NONE, PAST | EQ)
 
-        ins, _ = g.forward((base, S0), lambda n, s: transfer(n, s), join, branch_transfer=branch)
+        ins, _ = g.forward((base, S0, NONE, NONE), lambda n, s: transfer(n, s), join, branch_transfer=branch)
+        # what the record is when the function hands back a true / a false value (a predicate `claimed?` whose caller
+        # raises): each return statement's value is decided in the state that reaches it
+        St = Sf = frozenset()
+        for node in g.nodes:
+            if node.id in ins and node.kind == 'stmt' and isinstance(node.stmt, ast.Return):
+                tag, S, EQ, PAST = transfer(node, ins[node.id])
+                use_env(EQ, PAST)
+                v = node.stmt.value
+                if v is None or (isinstance(v, ast.Constant) and not v.value):
+                    a, b = frozenset(), S
+                elif isinstance(v, ast.Constant):
+                    a, b = S, frozenset()
+                else:
+                    a, b = self.refine(fi, v, True, S, node.stmt), self.refine(fi, v, False, S, node.stmt)
+                if tag != base:   # the lock is released on the way out
+                    a, b = _stable2(a), _stable2(b)
+                St, Sf = St | a, Sf | b
+        out_all = ins.get(g.exit)
+        for pnode, _lab in g.pred[g.exit]:
+            pn = g.nodes[pnode]
+            if pnode in ins and not (pn.kind == 'stmt' and isinstance(pn.stmt, ast.Return)) and out_all is not None:
+                Sf = Sf | sync(g.nodes[g.exit], out_all)[1]   # falls off the end (or leaves through a finally): None
+        if not inherited:
+            St, Sf = _stable2(St), _stable2(Sf)
+        self._truth[key] = (St, Sf)
         if collect:
             self.analysed.add(ck)
             self._collected.add(key)
@@ -736,10 +1107,11 @@ class Analysis:
                 return secs[id(a)]
         return None
 
-    def _emit_store(self, fi, node, ref, v, text, held, tag, S, prob):
+    def _emit_store(self, fi, node, ref, v, text, held, tag, S, prob, recv=None):
         k = (fi.file, fi.qualname, node.line, text)
         rec = self.store_obs.setdefault(k, {'fi': fi, 'line': node.line, 'text': text, 'ref': ref, 'value': v,
-                                            'held': True, 'S': frozenset(), 'prob': None, 'lock': None, 'stmt': node.stmt})
+                                            'held': True, 'S': frozenset(), 'prob': None, 'lock': None, 'stmt': node.stmt,
+                                            'recv': recv})
         rec['held'] = rec['held'] and held
         rec['S'] = rec['S'] | S
         if prob and not rec['prob']:
@@ -761,7 +1133,17 @@ def run(ctx):
         ctx.undecided('C20-R1', (m.relpath, OWNER), RECORD, 'owner record is no longer a class-level attribute')
 
     exec_acc = [(mm, n, kind, fi) for mm, n, kind, fi in A.accesses if fi is not None]
-    ctx.floor('C20-R1', len(exec_acc), 2, 'accesses of the owner record in executable code')
+    ctx.floor('C20-R1', len(exec_acc), 1, 'accesses of the owner record in executable code')
+    if not any(kind in ('store', 'del') for _mm, _n, kind, _fi in A.accesses):
+        # nothing writes the record in a form the rules follow.  Either the claim was dropped (decided below: nothing is
+        # ever refused) or it is spelled in a way not followed (the name as a string handed to something else)
+        known = {id(n.args[1]) for _mm, n, _k, _fi in A.accesses if isinstance(n, ast.Call)}
+        for mm in prog.src_modules():
+            for x in ast.walk(mm.tree):
+                if isinstance(x, ast.Constant) and x.value == RECORD and id(x) not in known:
+                    ctx.undecided('C20-R2', (mm.relpath, '<module>'), f'{RECORD!r} at line {x.lineno}',
+                                  'the owner record is not written by an attribute store or setattr, but its name is '
+                                  'used as a string here: cannot follow this way of writing it')
 
     # ---- run the interpretation: the constructor first (follows resolved callees), then every other writer ----
     S_exit = A.analyse(init, False, TOP, True)
@@ -821,20 +1203,23 @@ def run(ctx):
             ctx.ob('C20-R2', fi, f'stored value {norm(rec["value"])[:60]} into {text}', True,
                    'the current thread identity', line=line)
         # R2 receiver
-        ref = rec['ref']
+        ref, how, org = A.class_ref_deep(fi, rec['recv']) if rec['recv'] is not None else (rec['ref'], '', fi)
         ok_ref = ref == 'class'
-        why = 'stored on the class that owns the record'
+        why = 'stored on the class that owns the record' + (how if ok_ref else '')
+        through = f'`{norm(rec["recv"])}`{how}' if rec['recv'] is not None else f'`{text.rsplit(".", 1)[0]}`'
         if ref == 'cls':
-            sites = callers_of(prog, fi)
+            sites = callers_of(prog, org)
             bad = [c for _, c in sites if not (isinstance(c.func, ast.Attribute) and A.class_ref(_, c.func.value) == 'class')]
-            ok_ref = bool(sites) and not bad and fi.cls is cls
+            ok_ref = bool(sites) and not bad and org.cls is cls
             why = ('`cls` is always the owning class: every call names it explicitly' if ok_ref else
-                   '`cls` is the class of the object being built when the method is reached through an instance or a '
-                   'subclass: the store creates a new attribute on the subclass and leaves the shared record unset, so '
-                   'another thread is accepted')
+                   f'the store goes through {through}: `cls` is the class of the object being built when the method is '
+                   'reached through an instance or a subclass, so the store creates a new attribute on the subclass and '
+                   'leaves the shared record unset: another thread is accepted')
         elif not ok_ref:
-            why = (f'the store goes through `{text.rsplit(".", 1)[0]}`: it creates an attribute on the instance/subclass and '
-                   'leaves the class-level record unset, so another thread is accepted')
+            what = {'self': 'the instance', 'type': 'the class of the instance, which can be a subclass',
+                    'sub': 'a subclass'}.get(ref, 'something that is not shown to be the class that owns the record')
+            why = (f'the store goes through {through}, i.e. {what}: it creates an attribute there and leaves the class-level '
+                   f'record {OWNER}.{RECORD} unset, so another thread (building a plain {OWNER} or another subclass) is accepted')
         ctx.ob('C20-R2', fi, f'receiver of the store {text}', ok_ref, why, line=line)
     if n_stores == 0:
         ctx.ob('C20-R2', init, 'owner record is recorded', False,
